@@ -16,7 +16,7 @@ TECHNIQUE = "fault enumeration: each erroneous statement inserted at every line 
 RULE = (
     "hosts: generated valid programs rendered with random blank lines, full-line and end-of-line ';' comments, single- and multi-line '/* */' comments, indentation, strings with escaped quotes, split into .include files.  "
     "Erroneous statements: `lda.w undef_zz`, `.db 1, undef_zz`, `.dw undef_zz` (semantic: inserted wherever the statement is certainly assembled), `lda.q 5`, `lda 5,q`, `lda 5,` and `lda (5,` with nothing after the comma, `.text 'abc` + newline, `.ascii 'abc` + newline, `.text 'abc` at "
-    "end of file (lexical: inserted at every statement boundary, including macro bodies, block arguments of macro calls, loops and untaken branches), each with random indentation and an optional trailing comment.  Oracle: the failure text contains "
+    "end of file (lexical: inserted at every statement boundary, including macro bodies, block arguments of macro calls, loops and untaken branches), each with random indentation and an optional trailing comment, 1 in 7 behind 998 - 10 000 filler lines.  Oracle: the failure text contains "
     "<file>:<zero-based line> followed by a non-digit, with the file that holds the statement, and quotes that line's text; lexical errors give :<col> in the set of defensible columns (bad suffix: the suffix character or the dot; "
     "bad index: the offending character or the comma; unterminated string: the opening quote or the end of the line).  Non-trivial = line > 0 with a comment / blank / multi-line construct before it, or inside an included file; "
     "distinct = distinct (host, fault, position) tuples."
@@ -182,6 +182,14 @@ def check_one(out, case, sub):
             main = text
         else:
             return None  # only the main file can end inside the statement and still be reached
+    pad = sub.get("pad") or 0
+    if pad:
+        # a long file: the statement sits beyond line 1000 (blank lines and comments in front of everything)
+        padding = "".join(("; filler line %d\n" % i) if i % 3 else "\n" for i in range(pad))
+        text = padding + text
+        lineno += pad
+        if fname == "main.s":
+            main = text
     if fname != "main.s":
         files[fname] = text
     res = driver.assemble_mem(main, rom=case["rom"], files={**(case.get("files") or {}), **files})
@@ -251,7 +259,8 @@ def run_case(case) -> Outcome:
             for eof in variants:
                 sub = {"t": "one", "rom": case["rom"], "ir": case["ir"], "files": case.get("files") or {}, "layout_seed": case["layout_seed"], "fault": fault,
                        "steps": [list(s) for s in steps], "index": index, "indent": rng.choice(["", " ", "    ", "\t", " \t"]),
-                       "tail": rng.choice(["", "", " ; trailing", "   "]) if not eof and not fault.startswith("unterminated") else "", "eof": eof}
+                       "tail": rng.choice(["", "", " ; trailing", "   "]) if not eof and not fault.startswith("unterminated") else "", "eof": eof,
+                       "pad": rng.choice([0] * 30 + [998, 1000, 1234, 2047, 10000])}
                 loc = check_one(out, case, sub)
                 if loc is None:
                     continue
